@@ -27,7 +27,7 @@ pub static PROP: PropDef = PropDef {
     run_tape,
     exhaustive: Some(exhaustive),
     run_direct: Some(run_direct),
-    min_classes: &[("recv_boundary", 200), ("send_boundary", 200), ("recv_refused", 500), ("recv_accepted", 500), ("send_refused", 200), ("send_ok", 500), ("settings_after_call", 200), ("status_431_sent", 100)],
+    min_classes: &[("recv_boundary", 200), ("send_boundary", 200), ("recv_refused", 500), ("recv_accepted", 500), ("send_refused", 200), ("send_ok", 500), ("settings_after_call", 200), ("status_431_sent", 100), ("recv_on_split_half", 200), ("send_on_split_half", 200)],
     extra: None,
 };
 
@@ -56,6 +56,29 @@ pub struct Case {
     /// Recv request: limit the raw client advertises (for the 431 answer)
     pub peer_limit: Option<u64>,
     pub tiny: bool,
+    /// the call under test is made on a half obtained from `split()` (where a stream exists before the call)
+    pub split: bool,
+}
+
+/// drain the body, then ask for the trailers
+macro_rules! body_then_trailers {
+    ($s:expr) => {{
+        let mut err = None;
+        loop {
+            match $s.recv_data().await {
+                Ok(Some(_)) => {}
+                Ok(None) => break,
+                Err(e) => {
+                    err = Some(err_info(&e));
+                    break;
+                }
+            }
+        }
+        match err {
+            Some(e) => Err(e),
+            None => $s.recv_trailers().await.map(|_| ()).map_err(|e| err_info(&e)),
+        }
+    }};
 }
 
 const REQ_BASE: u64 = 167;
@@ -163,20 +186,15 @@ async fn server_app(net: Net, c: Case, o: Shared<Obs>, go: Signal, sp: Spawner) 
                     };
                     match c.kind {
                         Kind::RecvReqTrailers if first => {
-                            let mut err = None;
-                            loop {
-                                match s.recv_data().await {
-                                    Ok(Some(_)) => {}
-                                    Ok(None) => break,
-                                    Err(e) => {
-                                        err = Some(err_info(&e));
-                                        break;
-                                    }
-                                }
-                            }
-                            let r = match err {
-                                Some(e) => Err(e),
-                                None => s.recv_trailers().await.map(|_| ()).map_err(|e| err_info(&e)),
+                            let r = if c.split {
+                                let (tx, mut rx) = s.split();
+                                let r = body_then_trailers!(rx);
+                                o2.borrow_mut().result = Some(r);
+                                std::future::pending::<()>().await;
+                                drop((tx, rx));
+                                return;
+                            } else {
+                                body_then_trailers!(s)
                             };
                             o2.borrow_mut().result = Some(r);
                         }
@@ -188,11 +206,34 @@ async fn server_app(net: Net, c: Case, o: Shared<Obs>, go: Signal, sp: Spawner) 
                             let f = fields_of_size(true, false, c.size).unwrap();
                             let mut resp = http::Response::builder().status(200).body(()).unwrap();
                             *resp.headers_mut() = hm(&f);
+                            if c.split {
+                                let (mut tx, rx) = s.split();
+                                let r = tx.send_response(resp).await.map_err(|e| err_info(&e));
+                                o2.borrow_mut().result = Some(r);
+                                let _ = tx.finish().await;
+                                std::future::pending::<()>().await;
+                                drop((tx, rx));
+                                return;
+                            }
                             let r = s.send_response(resp).await.map_err(|e| err_info(&e));
                             o2.borrow_mut().result = Some(r);
                             let _ = s.finish().await;
                         }
                         Kind::SendRespTrailers => {
+                            if c.split {
+                                let (mut tx, rx) = s.split();
+                                let _ = tx.send_response(http::Response::builder().status(200).body(()).unwrap()).await;
+                                if c.settings_first {
+                                    go.wait(0).await;
+                                }
+                                let f = fields_of_size(false, false, c.size).unwrap();
+                                let r = tx.send_trailers(hm(&f)).await.map_err(|e| err_info(&e));
+                                o2.borrow_mut().result = Some(r);
+                                let _ = tx.finish().await;
+                                std::future::pending::<()>().await;
+                                drop((tx, rx));
+                                return;
+                            }
                             let _ = s.send_response(http::Response::builder().status(200).body(()).unwrap()).await;
                             if c.settings_first {
                                 go.wait(0).await;
@@ -270,37 +311,40 @@ async fn client_app(net: Net, c: Case, o: Shared<Obs>, go: Signal, sp: Spawner) 
                 go.wait(0).await;
             }
             let f = fields_of_size(false, true, c.size).unwrap();
+            if c.split {
+                let (mut tx, rx) = s.split();
+                let r = tx.send_trailers(hm(&f)).await.map_err(|e| err_info(&e));
+                o.borrow_mut().result = Some(r);
+                let _ = tx.finish().await;
+                std::future::pending::<()>().await;
+                drop((tx, rx));
+                return;
+            }
             let r = s.send_trailers(hm(&f)).await.map_err(|e| err_info(&e));
             o.borrow_mut().result = Some(r);
             let _ = s.finish().await;
             std::future::pending::<()>().await;
         }
         Kind::RecvRespHeaders | Kind::RecvRespTrailers => {
+            let mut keep = Vec::new();
             for k in 0..2 {
                 let Ok(mut s) = sr.send_request(small()).await else { break };
-                let _ = s.finish().await;
-                let r = match s.recv_response().await {
-                    Err(e) => Err(err_info(&e)),
-                    Ok(_) => {
-                        if c.kind == Kind::RecvRespTrailers && k == 0 {
-                            let mut err = None;
-                            loop {
-                                match s.recv_data().await {
-                                    Ok(Some(_)) => {}
-                                    Ok(None) => break,
-                                    Err(e) => {
-                                        err = Some(err_info(&e));
-                                        break;
-                                    }
-                                }
-                            }
-                            match err {
-                                Some(e) => Err(e),
-                                None => s.recv_trailers().await.map(|_| ()).map_err(|e| err_info(&e)),
-                            }
-                        } else {
-                            Ok(())
-                        }
+                let r = if c.split && k == 0 {
+                    let (mut tx, mut rx) = s.split();
+                    let _ = tx.finish().await;
+                    let r = match rx.recv_response().await {
+                        Err(e) => Err(err_info(&e)),
+                        Ok(_) if c.kind == Kind::RecvRespTrailers => body_then_trailers!(rx),
+                        Ok(_) => Ok(()),
+                    };
+                    keep.push((tx, rx));
+                    r
+                } else {
+                    let _ = s.finish().await;
+                    match s.recv_response().await {
+                        Err(e) => Err(err_info(&e)),
+                        Ok(_) if c.kind == Kind::RecvRespTrailers && k == 0 => body_then_trailers!(s),
+                        Ok(_) => Ok(()),
                     }
                 };
                 if k == 0 {
@@ -311,6 +355,7 @@ async fn client_app(net: Net, c: Case, o: Shared<Obs>, go: Signal, sp: Spawner) 
                 go.wait(k as u64).await;
             }
             std::future::pending::<()>().await;
+            drop(keep);
         }
         _ => {}
     }
@@ -319,7 +364,7 @@ async fn client_app(net: Net, c: Case, o: Shared<Obs>, go: Signal, sp: Spawner) 
 }
 
 fn case_json(c: &Case) -> Value {
-    json!({"kind": format!("{:?}", c.kind), "limit": c.limit.map(|l| l.to_string()), "size": c.size, "settings_first": c.settings_first, "peer_limit": c.peer_limit.map(|l| l.to_string()), "tiny": c.tiny})
+    json!({"kind": format!("{:?}", c.kind), "limit": c.limit.map(|l| l.to_string()), "size": c.size, "settings_first": c.settings_first, "peer_limit": c.peer_limit.map(|l| l.to_string()), "tiny": c.tiny, "split": c.split})
 }
 
 pub fn run_case(c: &Case, sched: &[u16], ctx: &mut Ctx) -> Verdict {
@@ -485,6 +530,9 @@ pub fn run_case(c: &Case, sched: &[u16], ctx: &mut Ctx) -> Verdict {
                 r => return fail(format!("the following response: {r:?}")),
             },
         }
+        if c.split {
+            ctx.class("recv_on_split_half");
+        }
         if c.size.abs_diff(limit) <= 2 {
             ctx.class("recv_boundary");
             ctx.nontrivial(c);
@@ -518,6 +566,9 @@ pub fn run_case(c: &Case, sched: &[u16], ctx: &mut Ctx) -> Verdict {
         if !c.settings_first {
             ctx.class("settings_after_call");
         }
+        if c.split {
+            ctx.class("send_on_split_half");
+        }
         if c.limit.map(|l| c.size.abs_diff(l) <= 2).unwrap_or(false) {
             ctx.class("send_boundary");
             ctx.nontrivial(c);
@@ -525,6 +576,11 @@ pub fn run_case(c: &Case, sched: &[u16], ctx: &mut Ctx) -> Verdict {
     }
     ctx.sample(|| case_json(c));
     Ok(())
+}
+
+/// is there a stream to split before the call under test?
+fn splittable(k: Kind) -> bool {
+    !matches!(k, Kind::RecvReqHeaders | Kind::SendReqHeaders)
 }
 
 const LIMITS: [u64; 14] = [0, 1, 41, 42, 43, 100, 167, 204, 205, 300, 1000, 65535, 1 << 32, (1 << 62) - 1];
@@ -556,13 +612,18 @@ fn exhaustive(ctx: &mut Ctx, shard: usize, nshards: usize) -> Verdict {
                             continue;
                         }
                         for tiny in [false, true] {
-                            idx += 1;
-                            if idx % nshards != shard {
-                                continue;
+                            for split in [false, true] {
+                                if split && !splittable(kind) {
+                                    continue;
+                                }
+                                idx += 1;
+                                if idx % nshards != shard {
+                                    continue;
+                                }
+                                let c = Case { kind, limit, size, settings_first, peer_limit, tiny, split };
+                                run_case(&c, &[], ctx)?;
+                                n += 1;
                             }
-                            let c = Case { kind, limit, size, settings_first, peer_limit, tiny };
-                            run_case(&c, &[], ctx)?;
-                            n += 1;
                         }
                     }
                 }
@@ -571,7 +632,7 @@ fn exhaustive(ctx: &mut Ctx, shard: usize, nshards: usize) -> Verdict {
     }
     let _ = n;
     if shard == 0 {
-        ctx.subspace("8 kinds x 15 limits x sizes {limit-2..limit+2, fixed points} x SETTINGS timing x peer limit x 2 styles", idx as u64);
+        ctx.subspace("8 kinds x 15 limits x sizes {limit-2..limit+2, fixed points} x SETTINGS timing x peer limit x 2 styles x whole stream / split() half", idx as u64);
     }
     Ok(())
 }
@@ -590,7 +651,7 @@ fn run_tape(tape: &[u16], ctx: &mut Ctx) -> Verdict {
         2 => t.int(0, 1200),
         _ => t.int(0, 70_000),
     };
-    let c = Case { kind, limit, size, settings_first: t.chance(2, 3), peer_limit: if t.bool() { None } else { Some(*t.choose(&[0u64, 41, 42, 43, 1000])) }, tiny: t.chance(1, 4) };
+    let c = Case { kind, limit, size, settings_first: t.chance(2, 3), peer_limit: if t.bool() { None } else { Some(*t.choose(&[0u64, 41, 42, 43, 1000])) }, tiny: t.chance(1, 4), split: t.bool() && splittable(kind) };
     let mut c = c;
     let recv = matches!(c.kind, Kind::RecvReqHeaders | Kind::RecvReqTrailers | Kind::RecvRespHeaders | Kind::RecvRespTrailers);
     if recv {
@@ -606,7 +667,7 @@ fn run_tape(tape: &[u16], ctx: &mut Ctx) -> Verdict {
 fn run_direct(d: &Value, ctx: &mut Ctx) -> Verdict {
     let kind = KINDS.iter().copied().find(|k| Some(format!("{k:?}").as_str()) == d["kind"].as_str()).ok_or_else(|| Failure::fault("bad kind"))?;
     let num = |k: &str| d[k].as_str().and_then(|s| s.parse::<u64>().ok());
-    let c = Case { kind, limit: num("limit"), size: d["size"].as_u64().unwrap_or(0), settings_first: d["settings_first"].as_bool().unwrap_or(true), peer_limit: num("peer_limit"), tiny: d["tiny"].as_bool().unwrap_or(false) };
+    let c = Case { kind, limit: num("limit"), size: d["size"].as_u64().unwrap_or(0), settings_first: d["settings_first"].as_bool().unwrap_or(true), peer_limit: num("peer_limit"), tiny: d["tiny"].as_bool().unwrap_or(false), split: d["split"].as_bool().unwrap_or(false) };
     let sched: Vec<u16> = d["sched"].as_array().map(|a| a.iter().map(|x| x.as_u64().unwrap_or(0) as u16).collect()).unwrap_or_default();
     run_case(&c, &sched, ctx)
 }
